@@ -3,13 +3,14 @@ package c10
 // `seq` cases: SEQUENCES of transcoded calls over TWO targets with different descriptor sets through ONE bridge built by
 // the root constructor (one transcoder, one marshaler instance) — rendering must be history-free.
 //
-//	seq mk=<default|fresh> ct=<json|none> steps=<T>:<o|e<code><dets>>,…   =>   <status>/<json|plain|hex>/<body> …
+//	seq mk=<default|fresh> ct=<json|none> steps=<T>:<o|e<code><dets>|E<code><dets>>,…   =>   <status>/<json|plain|hex>/<body> …
 //
 // Target A (package ta) and target B (package tb) are built at run time (descriptorpb -> protodesc -> dynamicpb, private
 // registries): each has its own Req/Resp and ONE detail message only it knows (ta.DetailA / tb.DetailB). A step is one
 // POST through grpcbridge.NewWebBridge(router[, marshaler options]).ServeHTTP routed to that target; the target answers
 // with its response message (o) or with a google.rpc.Status of the given code, message "boom <code>" and the listed
-// details (a = ta.DetailA, b = tb.DetailB, - = none) as the result of Recv. mk=default: no options — the bridge uses the
+// details (a = ta.DetailA, b = tb.DetailB, - = none) as the result of Recv (E = the target ended the call before the
+// request message was written: Send returns io.EOF as gRPC's SendMsg does, the status still comes from Recv). mk=default: no options — the bridge uses the
 // process-wide transcoding.DefaultJSONMarshaler; mk=fresh: a new JSONMarshaler with the same settings for this case only.
 // Output per step: HTTP status, Content-Type, and the body decoded the way a client would: M = the response message,
 // S.<code>.<message hex>.<detail letters> = a JSON google.rpc.Status whose details decode, T.<1|0> = text/plain (1 = it
@@ -89,6 +90,9 @@ type seqStep struct {
 	ok   bool
 	code int
 	dets string // letters a/b, "-" = none
+	// early: the target ended the call BEFORE the request message was written (unknown method on the target, early
+	// Unauthenticated): as with gRPC's SendMsg, Send then returns io.EOF and the real status comes from Recv
+	early bool
 }
 
 func parseSeqSteps(s string) ([]seqStep, error) {
@@ -102,9 +106,10 @@ func parseSeqSteps(s string) ([]seqStep, error) {
 		if p[1] == "o" {
 			st.ok = true
 		} else {
-			if p[1][0] != 'e' {
+			if p[1][0] != 'e' && p[1][0] != 'E' {
 				return nil, fmt.Errorf("step %q", tok)
 			}
+			st.early = p[1][0] == 'E'
 			i := 1
 			for i < len(p[1]) && p[1][i] >= '0' && p[1][i] <= '9' {
 				i++
@@ -162,7 +167,12 @@ type seqStream struct {
 	recv int
 }
 
-func (s *seqStream) Send(context.Context, proto.Message) error { return nil }
+func (s *seqStream) Send(context.Context, proto.Message) error {
+	if s.c.step.early {
+		return io.EOF
+	}
+	return nil
+}
 func (s *seqStream) Header() metadata.MD                        { return nil }
 func (s *seqStream) Trailer() metadata.MD                       { return nil }
 func (s *seqStream) CloseSend()                                 {}
@@ -309,7 +319,7 @@ func seqBody(r *seqRouter, st seqStep, code int, ct string, body []byte) string 
 }
 
 func genSeq(emit func(string), count func(string)) {
-	steps := []string{"A:o", "A:e5-", "A:e9a", "A:e14b", "A:e3ab", "B:o", "B:e5-", "B:e9b", "B:e14a", "B:e3ba"}
+	steps := []string{"A:o", "A:e5-", "A:e9a", "A:e14b", "A:e3ab", "B:o", "B:e5-", "B:e9b", "B:e14a", "B:e3ba", "A:E12-", "A:E16a", "B:E12b"}
 	for _, mk := range []string{"default", "fresh"} {
 		for _, ct := range []string{"json", "none"} {
 			for _, s1 := range steps {
